@@ -377,6 +377,9 @@ func main() {
 		}
 		output.Obligations = append(output.Obligations, o)
 	}
+	if *fnFilter == "" {
+		output.Obligations = append(output.Obligations, g.staticObligations(want)...)
+	}
 	output.GenSeconds = time.Since(t1).Seconds()
 	if *dumpSMT != "" {
 		os.MkdirAll(*dumpSMT, 0o755)
